@@ -20,12 +20,12 @@ from mc.contexp import check
 from mc.impl import h5ops
 from mc.props import c06
 
-ANCESTORS = {"vt.aa": ["vt.aa"], "vt.bb": ["vt.aa", "vt.bb"], "vt.cc": ["vt.aa", "vt.bb", "vt.cc"], "vt.dd": ["vt.aa", "vt.dd"], "core.file": ["core.file"], "core.dir": ["core.dir"]}
+ANCESTORS = {"vt.a0": ["vt.aa", "vt.a0"], "vt.aa": ["vt.aa"], "vt.bb": ["vt.aa", "vt.bb"], "vt.cc": ["vt.aa", "vt.bb", "vt.cc"], "vt.dd": ["vt.aa", "vt.dd"], "core.file": ["core.file"], "core.dir": ["core.dir"]}
 QUERY_SCHEMAS = ["vt.aa", "vt.bb", "vt.cc", "vt.dd", "core.file", "vt.xx", "vt.zz"]
 VERSIONS = [None, (1, 0, 0), (1, 1, 0), (1, 2, 0), (2, 0, 0), (0, 1, 0)]
 GRID = (
     [(S, v) for S in ("vt.aa", "vt.bb") for v in VERSIONS]
-    + [(S, v) for S in ("vt.cc", "vt.dd") for v in (None, (1, 0, 0))]
+    + [(S, v) for S in ("vt.cc", "vt.dd", "vt.a0") for v in (None, (1, 0, 0))]
     + [("core.file", None), ("core.file", (0, 1, 0)), ("vt.xx", None), ("vt.zz", None)]
 )
 
@@ -34,7 +34,7 @@ def make_cfg(name, seed, max_dev, envs=("old",), checks=("meta_exact", "queries_
     cfg = c06.make_cfg(name, seed, max_dev=max_dev, checks=checks, schemas=["vt.aa", "vt.bb", "vt.cc", "vt.dd"], envs=envs)
     G, GD, E, H, GF = cfg["paths"]
     ops = [o for o in cfg["ops"] if o[0] not in ("R", "B")]
-    ops += [["attach", E, "vt.xx"], ["attach", G, "vt.zz"], ["attach", GD, "core.file"], ["detach", GD, "vt.cc"], ["R"], ["B"]]
+    ops += [["attach", E, "vt.xx"], ["attach", G, "vt.zz"], ["attach", GD, "core.file"], ["detach", GD, "vt.cc"], ["attach", E, "vt.a0"], ["attach", "/", "vt.a0"], ["R"], ["B"]]
     cfg["ops"] = ops
     cfg["skip_checks_on_clean_fail"] = True
     return cfg
@@ -302,7 +302,7 @@ def run(tier, seed):
         # ---- environment upgrade: old env writes every history of depth <= k (attach/mk ops only) ...
         k = 2 if q else 3
         G, GD, E, H, GF = cfg["paths"]
-        wops = [["mkds", E], ["mkds", GD], ["attach", "/", "vt.aa"], ["attach", E, "vt.cc"], ["attach", GD, "vt.bb"], ["attach", E, "vt.aa"], ["attach", GD, "vt.dd"], ["attach", "/", "vt.bb"]]
+        wops = [["mkds", E], ["mkds", GD], ["attach", "/", "vt.a0"], ["attach", "/", "vt.aa"], ["attach", E, "vt.cc"], ["attach", GD, "vt.bb"], ["attach", E, "vt.aa"], ["attach", GD, "vt.dd"], ["attach", "/", "vt.bb"]]
         import itertools
 
         olds = []
